@@ -140,9 +140,9 @@ FAMILY_MAPS = {
 class Pres:
     """one presentation of an input"""
 
-    def __init__(self, onest, snest, leafmap, leafsyn, costs, naming="default", fam="id"):
+    def __init__(self, onest, snest, leafmap, leafsyn, costs, naming="default", fam="id", order="pre"):
         self.onest, self.snest, self.leafmap, self.leafsyn = onest, snest, leafmap, leafsyn
-        self.costs, self.naming, self.fam = costs, naming, fam
+        self.costs, self.naming, self.fam, self.order = costs, naming, fam, order
 
     def build(self, family):
         O, olab = refine.model_of(self.onest)
@@ -156,7 +156,8 @@ class Pres:
             ls = {oinv[o]: tuple(fm[f] for f in syn) for o, syn in self.leafsyn.items()}
         onames = NAMINGS[self.naming](O, "o")
         snames = NAMINGS[self.naming](S, "s")
-        inp, onode, snode = A.build_input(O, S, lm, self.costs, ls, onames, snames, unordered=(family == "unordered"))
+        inp, onode, snode = A.build_input(O, S, lm, self.costs, ls, onames, snames, unordered=(family == "unordered"),
+                                          order=self.order)
         return inp, O, S, olab, slab, onode, snode
 
 
@@ -241,6 +242,9 @@ def transformations(onest, snest, costs, family):
     if family != "plain":
         for fm in ("reverse_sort", "rotate"):
             out.append((f"rename_families_{fm}", "same", {"fam": fm}))
+    # the leaf dictionaries (assignment, syntenies) written in another order
+    out.append(("leaf_dicts_reversed", "same", {"order": "rev"}))
+    out.append(("leaf_dicts_rotated", "same", {"order": "mid"}))
     out.append(("outgroup_right", "outgroup", {"snest": (snest, "X")}))
     out.append(("outgroup_left", "outgroup", {"snest": ("X", snest)}))
     out.append(("repeat_same_object", "twice", {}))
@@ -279,7 +283,7 @@ def check_input(algo, family, osh, ssh, leafmap, leafsyn, costs, only=None):
             continue
         k = kw.pop("k", None)
         p = Pres(kw.get("onest", onest), kw.get("snest", snest), leafmap, leafsyn, kw.get("costs", costs),
-                 kw.get("naming", "default"), kw.get("fam", "id"))
+                 kw.get("naming", "default"), kw.get("fam", "id"), kw.get("order", "pre"))
         c1, k1, err = solve(algo, family, p, twice=(kind == "twice"), after_other=(kind == "after"), inplace=(kind == "inplace"))
         runs += 1
         if err:
